@@ -102,6 +102,11 @@ class World:
                 t = self._mt(spec)
                 _o['os.utime'](p, ns=(t, t))
             elif k == 'symlink':
+                # a link whose target resolves outside the world (e.g. '..' steps taken from behind another link) would
+                # expose the scratch directory with the worlds of other runs: never created
+                tgt = os.path.realpath(os.path.join(os.path.dirname(p), spec['t']))
+                if not (tgt == self.base or tgt.startswith(self.base + os.sep)):
+                    return False
                 _o['os.symlink'](spec['t'], p)
             elif k == 'fifo':
                 os.mkfifo(p)
